@@ -163,6 +163,117 @@ def call_chain(f, op, limit=12):
     return names, o
 
 
+def local_callee(c, call):
+    """the same-crate function a call resolves to (None for foreign or indirect callees)."""
+    n = mir.norm(call.callee)
+    for g in c.fns.values():
+        if g.npath == n:
+            return g
+    return None
+
+
+def ret_sources(f):
+    """origins of every value that reaches the return place: assignments to `_0` and calls writing it."""
+    out = []
+    for b, s in ret_writes(f):
+        rv = s["rv"]
+        if rv["k"] == "un":
+            out.append((b, {"kind": "un", "op": rv.get("op"), "a": f.origin(rv["a"])}))
+        else:
+            out.append((b, f.stored(s)))
+    for x in f.calls():
+        if x.dest["l"] == 0 and not x.dest.get("p"):
+            out.append((x.bb, {"kind": "call", "call": x, "proj": []}))
+    return out
+
+
+def self_field_uses(f, a_self):
+    """{field: loc} for the first-level fields of the `self` parameter that any place of f goes through."""
+    out = {}
+
+    def place(pl, loc):
+        l, p = pl["l"], list(pl.get("p") or [])
+        if l != a_self:
+            o = f.place_origin({"l": l})
+            if o.get("kind") != "arg" or o.get("n") != a_self:
+                return
+            p = list(o.get("proj", [])) + p
+        for e in p:
+            if isinstance(e, str) and e.startswith("."):
+                out.setdefault(e[1:], loc)
+                return
+
+    def rec(x, loc):
+        if isinstance(x, dict):
+            if isinstance(x.get("l"), int) and "f" not in x and set(x) <= {"l", "p"}:
+                place(x, loc)
+                return
+            for k, v in x.items():
+                if k != "sp":
+                    rec(v, loc)
+        elif isinstance(x, list):
+            for v in x:
+                rec(v, loc)
+    for b in sorted(f.live):
+        rec(f.stmts(b), f.loc(b))
+        rec(f.term(b), f.loc(b))
+    return out
+
+
+def run_mir(g, args, discr_pred, discr_val, oracle, oracle_val, limit=400):
+    """Evaluate a small bool-valued MIR function concretely: `args` maps parameter locals to ints, the discriminant of
+    any place whose origin satisfies discr_pred is discr_val, every call matching `oracle` returns oracle_val (negated
+    for `ne`); anything else is unknown, and branching on an unknown fails closed."""
+    env = dict(args)
+    b = 0
+
+    def val(o):
+        if "c" in o:
+            return int(o["v"]) if "v" in o else None
+        l = _plain_local(o)
+        return env.get(l) if l is not None else None
+    for _ in range(limit):
+        for s_ in g.stmts(b):
+            if s_["k"] != "=":
+                continue
+            rv, dst = s_["rv"], s_["p"]
+            v = None
+            if rv["k"] == "use":
+                v = val(rv["o"])
+            elif rv["k"] == "un" and rv.get("op") == "Not":
+                a = val(rv["a"])
+                v = None if a is None else 1 - a
+            elif rv["k"] == "discr" and discr_pred(g.place_origin(rv["p"])):
+                v = discr_val
+            if not dst.get("p"):
+                env[dst["l"]] = v
+        t = g.term(b)
+        k = t["k"]
+        if k == "return":
+            return env.get(0)
+        if k in ("goto", "drop", "assert"):
+            b = t["t"]
+        elif k == "switch":
+            v = val(t["d"])
+            if v is None:
+                raise AnchorMissing(f"{g.npath}: branch on a value the table evaluation cannot determine")
+            tg = g.switch_targets(b)
+            b = tg.get(v, tg["else"])
+        elif k == "call":
+            x = mir.Call(b, t)
+            v = None
+            if x.matches(oracle):
+                v = 1 - oracle_val if mir.norm(x.callee).endswith("::ne") else oracle_val
+            if not t["d"].get("p"):
+                env[t["d"]["l"]] = v
+            if t["t"] < 0:
+                raise AnchorMissing(f"{g.npath}: diverging call during table evaluation")
+            b = t["t"]
+        else:
+            raise AnchorMissing(f"{g.npath}: terminator {k} during table evaluation")
+    raise AnchorMissing(f"{g.npath}: table evaluation did not terminate")
+
+
 def arg_of_type(f, sub):
     """Index (1-based local) of the unique parameter whose type contains `sub`."""
     c = [i for i in range(1, f.argc + 1) if sub in f.locals[i]]
@@ -302,11 +413,99 @@ def filter_switch(f, loop, who):
     return c[0]
 
 
+def has_directive_loop(g):
+    try:
+        a = arg_of_type(g, "AsyncFilterSet")
+        L = Loop(g, g.npath)
+        names, root = L.chain()
+        return is_arg_field(root, a, "async_")
+    except (AnchorMissing, IndexError):
+        return False
+
+
+def scan_fn(c):
+    """(function holding the directive loop, the call in is_async that reaches it or None)."""
+    top = c.method("AsyncFilterSet", "is_async")
+    if has_directive_loop(top):
+        return top, top, None
+    a_self = arg_of_type(top, "AsyncFilterSet")
+    cands = []
+    for x in top.calls():
+        g = local_callee(c, x)
+        if g is None or not has_directive_loop(g):
+            continue
+        if any(o.get("kind") == "arg" and o.get("n") == a_self and not [p for p in o.get("proj", []) if p.startswith(".")]
+               for o in (top.origin(a) for a in x.args)):
+            cands.append((x, g))
+    if len(cands) != 1:
+        raise AnchorMissing(f"is_async: the directive loop (in is_async or in one helper it hands `self` to): {len(cands)} found")
+    return top, cands[0][1], cands[0][0]
+
+
+def derives_name(f, o, depth=6):
+    """is the value the name under test: func.name / format of name_world_key and func.name, possibly borrowed?"""
+    if depth <= 0:
+        return False
+    if o.get("kind") == "place" and o.get("ndefs", 0) > 1:
+        ds = def_origins(f, o["local"])
+        return bool(ds) and all(derives_name(f, x, depth - 1) for _, x in ds)
+    if o.get("kind") == "call":
+        n = mir.norm(o["call"].callee)
+        if n.endswith(("Deref>::deref", "String::as_str", "Borrow>::borrow", "AsRef>::as_ref")) and o["call"].args:
+            return derives_name(f, f.origin(o["call"].args[0]), depth - 1)
+        return _from_name(f, o)
+    return False
+
+
+ALLOWED_SELF_FIELDS = {"async_", "used_options"}
+
+
+def r1_purity(rep, top, f, via):
+    """the answer is a function of (directives, name, direction, func): no other state of the set takes part."""
+    for g in ([top] if f is top else [top, f]):
+        a = arg_of_type(g, "AsyncFilterSet")
+        uses = self_field_uses(g, a)
+        extra = sorted(set(uses) - ALLOWED_SELF_FIELDS)
+        who = g.npath.split("::")[-1]
+        rep.ob("R17.1", f"{who}: only the directive list and the usage marks of the set are touched (the answer "
+               "depends on directives, name, direction and function alone)", not extra,
+               f"also goes through self.{', self.'.join(extra)}", uses[extra[0]] if extra else g.loc())
+    if via is None:
+        return
+    a_imp = [i for i in range(1, top.argc + 1) if top.locals[i] == "bool"]
+    a_func = arg_of_type(top, "Function")
+    srcs = ret_sources(top)
+    bad = [b for b, o in srcs if not (o.get("kind") == "call" and not o.get("proj") and o["call"].bb == via.bb)]
+    rep.ob("R17.1", "is_async: every answer is the result of the directive scan for this very query", bool(srcs) and not bad,
+           f"{len(bad)} return value(s) come from somewhere else (a cache, a constant)", top.loc(bad[0]) if bad else top.loc())
+    for i, t in enumerate(via.arg_types):
+        o = top.origin(via.args[i])
+        if t == "bool":
+            rep.ob("R17.1", "is_async: the scan receives the caller's is_import unchanged",
+                   o.get("kind") == "arg" and [o.get("n")] == a_imp and not o.get("proj"), f"{o.get('kind')}", top.loc(via.bb))
+        elif "Function" in t:
+            rep.ob("R17.1", "is_async: the scan receives the caller's function",
+                   o.get("kind") == "arg" and o.get("n") == a_func, f"{o.get('kind')}", top.loc(via.bb))
+        elif "str" in t or "String" in t:
+            rep.ob("R17.1", "is_async: the scan receives the name under test (built from interface and func)",
+                   derives_name(top, o), "the name handed to the scan is not derived from func.name / name_world_key", top.loc(via.bb))
+
+
 def r1_loop(rep):
     c = ws("wit_bindgen_core")
-    f = c.method("AsyncFilterSet", "is_async")
+    top, f, via = scan_fn(c)
+    rep.saw(top)
     rep.saw(f)
+    r1_purity(rep, top, f, via)
     a_self = arg_of_type(f, "AsyncFilterSet")
+    if via is None:
+        def name_ok(o_):
+            return derives_name(f, o_)
+    else:
+        a_name = [i for i in range(1, f.argc + 1) if "str" in f.locals[i] or "String" in f.locals[i]]
+
+        def name_ok(o_):
+            return o_.get("kind") == "arg" and [o_.get("n")] == a_name
     a_imp = [i for i in range(1, f.argc + 1) if f.locals[i] == "bool"]
     if len(a_imp) != 1:
         raise AnchorMissing("is_async: the bool parameter `is_import`")
@@ -323,11 +522,14 @@ def r1_loop(rep):
            f"iterator chain {short} over {root.get('place', root.get('kind'))}", f.loc(N))
 
     # used_options.insert(i) sites: same set, index of the current element
-    ins = [x for x in f.calls("HashSet::insert")
-           if is_arg_field(f.origin(x.args[0]), a_self, "used_options") and L.elem(f.origin(x.args[1]), ".0")]
+    def touches_used(x):
+        return any(is_arg_field(f.origin(a), a_self, "used_options") for a in x.args)
+    ins = [x for x in f.calls() if touches_used(x) and any(L.elem(f.origin(a), ".0") for a in x.args)
+           and (x.matches("HashSet::insert") or local_callee(c, x) is not None)]
     ins_b = [x.bb for x in ins]
-    rep.floor("R17.1", "used_options.insert(i) sites in is_async", len(ins), 2)
-    others = [x for x in f.calls("HashSet::insert") if x.bb not in ins_b]
+    rep.floor("R17.1", "used_options.insert(i) sites in is_async", len(ins), 1)
+    others = [x for x in f.calls() if touches_used(x) and x.bb not in ins_b
+              and not mir.norm(x.callee).endswith(("Deref>::deref", "DerefMut>::deref_mut"))]
     rep.ob("R17.1", "is_async: every used_options.insert records the index of the current element",
            not others, f"{len(others)} insert site(s) with another set or index", f.loc(others[0].bb) if others else f.loc())
 
@@ -343,12 +545,15 @@ def r1_loop(rep):
             enabled_writes.append(b)
         else:
             bad.append(b)
-    rep.floor("R17.1", "`return opt.enabled` sites in the loop", len(enabled_writes), 2)
+    rep.floor("R17.1", "`return opt.enabled` sites in the loop", len(enabled_writes), 1)
     rep.ob("R17.1", "is_async: every value returned from inside the loop is the `enabled` bit of the matching element",
            not bad, "a return inside the loop yields something else (negated, constant, another element)",
            f.loc(bad[0]) if bad else f.loc())
 
-    swb, m, o = filter_switch(f, L, "is_async")
+    try:
+        swb, m, o = filter_switch(f, L, "is_async")
+    except AnchorMissing:
+        return r1_predicate(rep, c, f, L, a_imp, ins_b, enabled_writes, loop_region, name_ok)
     want_vars = {"All", "Function", "Import", "Export"}
     have = set(o["vars"].values())
     rep.ob("R17.1", "is_async: AsyncFilter has exactly the variants All / Function / Import / Export",
@@ -389,7 +594,7 @@ def r1_loop(rep):
                got == ["Export", "Function", "Import"], f"payloads compared: {got}", f.loc(E.bb))
         other = sides[1 - pay[0]]
         rep.ob("R17.1", "is_async: the payload is compared with the name under test (built from interface and func)",
-               len(other) >= 1 and all(_from_name(f, o_) for _, o_ in other),
+               len(other) >= 1 and all(name_ok(o_) for _, o_ in other),
                "the other operand is not derived from func.name / name_world_key", f.loc(E.bb))
 
     rets = f.returns()
@@ -444,6 +649,90 @@ def r1_loop(rep):
         rep.ob("R17.1", f"is_async: {v}(s) is compared when is_import = {'false' if skip_when else 'true'}",
                go_t is not None and f.all_paths_pass(go_t, rets + [N], [E.bb]) and E.bb in f.reachable(go_t),
                f"on the applicable direction the {v} directive does not reach the name test", f.loc(b))
+
+
+WANT_MATCH = {"All": lambda imp, eq: 1, "Function": lambda imp, eq: eq,
+              "Import": lambda imp, eq: imp & eq, "Export": lambda imp, eq: (1 - imp) & eq}
+
+
+def r1_predicate(rep, c, f, L, a_imp, ins_b, enabled_writes, loop_region, name_ok):
+    """the per-directive decision lives in a helper `fn(&AsyncFilter, name, is_import) -> bool` called from the loop."""
+    N = L.head
+    cands = []
+    for x in f.calls():
+        if x.bb not in loop_region:
+            continue
+        g = local_callee(c, x)
+        if g is None or g.locals[0] != "bool":
+            continue
+        fi = [i for i, a in enumerate(x.args) if L.elem(f.origin(a), ".1") and ".filter" in f.origin(a).get("proj", [])]
+        if fi:
+            cands.append((x, g, fi[0]))
+    rep.floor("R17.1", "per-directive match decisions in the loop (inline table or helper predicate)", len(cands), 1)
+    if len(cands) != 1:
+        raise AnchorMissing(f"is_async: neither an inline match on the directive's filter nor one helper predicate ({len(cands)})")
+    x, g, fi = cands[0]
+    rep.saw(g)
+    who = g.npath.split("::")[-1]
+    sws = bool_switches_on(f, lambda o_: o_.get("kind") == "call" and not o_.get("proj") and o_["call"].bb == x.bb)
+    if len(sws) != 1:
+        raise AnchorMissing(f"is_async: switch on the result of {who}")
+    b, ft, tt = sws[0]
+    rets = f.returns()
+    rep.ob("R17.1", "is_async: a name match marks the entry used before returning",
+           tt is not None and f.all_paths_pass(tt, rets, ins_b), "a path from the matching edge returns without marking", f.loc(b))
+    rep.ob("R17.1", "is_async: a name match returns at once (first match wins, later directives are not consulted)",
+           tt is not None and N not in f.reachable(tt) and bool(set(f.reachable(tt)) & set(enabled_writes)),
+           "the matching edge can reach the loop head again or does not return the element's bit", f.loc(b))
+    rep.ob("R17.1", "is_async: a name mismatch goes on to the next directive without returning",
+           ft is not None and f.all_paths_pass(ft, rets, [N]) and N in f.reachable(ft)
+           and not (f.reachable(ft, avoid=[N]) & set(ins_b)), "the non-matching edge returns, or marks the entry used", f.loc(b))
+    g_flt = fi + 1
+    g_imp = [i for i in range(1, g.argc + 1) if g.locals[i] == "bool"]
+    g_name = [i for i in range(1, g.argc + 1) if i != g_flt and i not in g_imp]
+    if len(g_imp) != 1 or len(g_name) != 1:
+        raise AnchorMissing(f"{who}: parameters (filter, name, is_import)")
+    oi = f.origin(x.args[g_imp[0] - 1])
+    rep.ob("R17.1", f"is_async: {who} receives the caller's is_import unchanged",
+           oi.get("kind") == "arg" and oi.get("n") == a_imp and not oi.get("proj"), f"{oi.get('kind')}", f.loc(x.bb))
+    on = origins(f, x.args[g_name[0] - 1])
+    rep.ob("R17.1", "is_async: the payload is compared with the name under test (built from interface and func)",
+           bool(on) and all(name_ok(o_) for _, o_ in on), "the name handed to the predicate is not the name under test", f.loc(x.bb))
+    sw = [(b_, m_, o_) for b_, m_, o_ in discr_switches(g, ty_sub="AsyncFilter")
+          if o_["of"].get("kind") == "arg" and o_["of"].get("n") == g_flt]
+    if len(sw) != 1:
+        raise AnchorMissing(f"{who}: switch on the filter's discriminant: {len(sw)} found")
+    sb, m, o = sw[0]
+    have = set(o["vars"].values())
+    rep.ob("R17.1", "is_async: AsyncFilter has exactly the variants All / Function / Import / Export",
+           have == set(WANT_MATCH), f"variants {sorted(have)}", g.loc(sb))
+    words = {"All": "always", "Function": "name equal, whatever the direction", "Import": "is_import and name equal",
+             "Export": "not is_import and name equal"}
+    for dv, v in sorted(o["vars"].items()):
+        if v not in WANT_MATCH:
+            continue
+        got = {}
+        for imp in (0, 1):
+            for eq in (0, 1):
+                got[(imp, eq)] = run_mir(g, {g_imp[0]: imp}, lambda po: po.get("kind") == "arg" and po.get("n") == g_flt,
+                                         dv, CMP, eq)
+        want = {k: WANT_MATCH[v](*k) for k in got}
+        rep.ob("R17.1", f"is_async: {v} matches exactly when: {words[v]}", got == want,
+               f"(is_import, equal) -> {got}", g.loc(variant_target(m, v)) if variant_target(m, v) is not None else g.loc())
+    cmps = g.calls(CMP)
+    rep.floor("R17.1", f"name comparisons in {who}", len(cmps), 1)
+    seen = set()
+    for e in cmps:
+        sides = [g.origin(a) for a in e.args[:2]]
+        pv = [p[3:] for o_ in sides if o_.get("kind") == "arg" and o_.get("n") == g_flt for p in o_.get("proj", []) if p.startswith("as ")]
+        nm = [o_ for o_ in sides if o_.get("kind") == "arg" and o_.get("n") == g_name[0]]
+        tv = variant_target(m, pv[0]) if len(pv) == 1 else None
+        seen.update(pv)
+        rep.ob("R17.1", f"{who}: a comparison tests the matching variant's own payload against the name",
+               len(pv) == 1 and len(nm) == 1 and tv is not None and g.dominates(tv, e.bb),
+               f"compares payload of {pv} with {len(nm)} name operand(s)", g.loc(e.bb))
+    rep.ob("R17.1", "is_async: Function, Import and Export payloads all reach the comparison",
+           seen == {"Function", "Import", "Export"}, f"payloads compared: {sorted(seen)}", g.loc())
 
 
 def _origin_call_bb(o):
@@ -567,18 +856,37 @@ def r1_macro(rep):
 # ================================================================================================================
 def r2_default(rep):
     c = ws("wit_bindgen_core")
-    f = c.method("AsyncFilterSet", "is_async")
-    L = Loop(f, "is_async")
-    a_func = arg_of_type(f, "Function")
-    sws = [(b, m, o) for b, m, o in discr_switches(f, ty_sub="FunctionKind")
-           if is_arg_field(o["of"], a_func, "kind")]
+    top, h, via = scan_fn(c)
+    L = Loop(h, "is_async")
+    a_func = arg_of_type(h, "Function")
+
+    def kind_switches(g, a):
+        return [(b, m, o) for b, m, o in discr_switches(g, ty_sub="FunctionKind") if is_arg_field(o["of"], a, "kind")]
+    f = h
+    sws = kind_switches(h, a_func)
+    site = sws[0][0] if len(sws) == 1 else None
+    if not sws:
+        # the fallback table lives in a helper called with `func` after the loop
+        for x in h.calls():
+            g = local_callee(c, x)
+            if g is None or x.bb in h.edge_region(L.sw, L.some):
+                continue
+            ai = [i for i, a in enumerate(x.args) if h.origin(a).get("kind") == "arg" and h.origin(a).get("n") == a_func
+                  and not [p for p in h.origin(a).get("proj", []) if p.startswith(".")]]
+            if ai and kind_switches(g, ai[0] + 1):
+                srcs = [(b_, o_) for b_, o_ in ret_sources(h) if b_ not in h.edge_region(L.sw, L.some)]
+                if all(o_.get("kind") == "call" and not o_.get("proj") and o_["call"].bb == x.bb for _, o_ in srcs) and srcs:
+                    f, a_func, site = g, ai[0] + 1, x.bb
+                    sws = kind_switches(g, a_func)
+                    rep.saw(g)
+                    break
     rep.floor("R17.2", "switch on func.kind in is_async", len(sws), 1)
     if len(sws) != 1:
         raise AnchorMissing(f"is_async: switch on func.kind: {len(sws)} found")
     b, m, o = sws[0]
     rep.ob("R17.2", "is_async: the default table is consulted only after every directive was tried (loop exhausted)",
-           f.dominates(L.none, b) and b not in f.edge_region(L.sw, L.some),
-           "func.kind is inspected before / inside the directive loop", f.loc(b))
+           h.dominates(L.none, site) and site not in h.edge_region(L.sw, L.some),
+           "func.kind is inspected before / inside the directive loop", h.loc(site))
     kinds = sorted(o["vars"].values())
     rep.floor("R17.2", "FunctionKind variants", len(kinds), 7)
     n_async = 0
@@ -601,29 +909,147 @@ def r2_default(rep):
 # ================================================================================================================
 # R17.3  unused directives are an error, and the Rust generator reports it
 # ================================================================================================================
+def used_test(f, o, root_pred, idx_pred):
+    """is origin `o` the bool "entry i is marked used"?  Accepted shapes: `used.contains(&i)` (set) and
+    `used.get(i).copied().unwrap_or(false)` (bit vector).  Returns the outermost call or None."""
+    if o.get("kind") != "call" or o.get("proj"):
+        return None
+    outer = o["call"]
+    names, has_idx = [], False
+    while o.get("kind") == "call" and len(names) < 8:
+        x = o["call"]
+        n = mir.norm(x.callee).split("::")[-1]
+        names.append(n)
+        if any(idx_pred(f.origin(a)) for a in x.args[1:]):
+            has_idx = True
+        if n == "unwrap_or":
+            d = f.origin(x.args[1])
+            if not (d.get("kind") == "const" and d.get("v") == 0):
+                return None
+        if not x.args:
+            return None
+        o = f.origin(x.args[0])
+    core = [n for n in names if n not in ("deref", "as_slice", "borrow")]
+    if root_pred(o) and has_idx and core in (["contains"], ["unwrap_or", "copied", "get"]):
+        return outer
+    return None
+
+
+def closure_of(c, f, op):
+    o = f.origin(op)
+    if o.get("kind") == "agg" and o["rv"].get("closure"):
+        return c.fns.get(o["rv"]["closure"]), o["rv"]
+    return None, None
+
+
+def r3_adapter(rep, c, f):
+    """`self.async_.iter().enumerate().filter(unused).map(entry).find(not All)` followed by `Some => Err, None => Ok`."""
+    a_self = 1
+    finds = f.calls(["Iterator::find", "Iterator::find_map"])
+    nx = [x for x in f.calls() if mir.norm(x.callee).endswith("::next")]
+    term = finds or nx
+    rep.floor("R17.3", "walks of the directive list in ensure_all_used (loop or iterator chain)", len(term), 1)
+    if len(term) != 1 or not mir.norm(term[0].callee).endswith("::find"):
+        raise AnchorMissing("ensure_all_used: neither a `for` loop nor one iterator chain ending in find()")
+    X = term[0]
+    chain = []
+    o = f.origin(X.args[0])
+    while o.get("kind") == "call" and len(chain) < 10:
+        chain.append(o["call"])
+        o = f.origin(o["call"].args[0])
+    short = [mir.norm(x.callee).split("::")[-1] for x in chain]
+    ok = is_arg_field(o, a_self, "async_") and set(short) <= {"map", "filter", "enumerate", "iter", "deref", "into_iter"} \
+        and "enumerate" in short and "filter" in short and short.index("enumerate") > short.index("filter")
+    rep.ob("R17.3", "ensure_all_used: walks self.async_ enumerated (indices agree with is_async)", ok,
+           f"iterator chain {['find'] + short}", f.loc(X.bb))
+    errs = [b for b, s in ret_writes(f) if f.stores_variant(s, "Err")]
+    oks = [b for b, s in ret_writes(f) if f.stores_variant(s, "Ok")]
+    rep.floor("R17.3", "Err(..) returns in ensure_all_used", len(errs), 1)
+    rep.floor("R17.3", "Ok(()) returns in ensure_all_used", len(oks), 1)
+    # filter: keeps exactly the entries that are not marked used
+    for x in [x for x in chain if mir.norm(x.callee).endswith("::filter")]:
+        k, rv = closure_of(c, f, x.args[1])
+        if k is None:
+            raise AnchorMissing("ensure_all_used: filter closure")
+        rep.saw(k)
+        cap_self = any(f.origin(op).get("kind") == "arg" and f.origin(op).get("n") == a_self and
+                       not [p for p in f.origin(op).get("proj", []) if p.startswith(".")] for op in rv["ops"])
+        tests = []
+        for b, o_ in ret_sources(k):
+            while o_.get("kind") == "un" and o_.get("op") == "Not":
+                o_ = o_["a"]
+            t = used_test(k, o_, lambda r: r.get("kind") == "arg" and r.get("n") == 1 and ".used_options" in r.get("proj", []),
+                          lambda i: i.get("kind") == "arg" and i.get("n") == 2 and ".0" in i.get("proj", []))
+            tests.append(t)
+        rep.ob("R17.3", "ensure_all_used: asks used_options about the index of the current entry",
+               cap_self and bool(tests) and all(t is not None for t in tests),
+               "the filter does not test self.used_options for the entry's own index", k.loc())
+        if tests and all(t is not None for t in tests):
+            pat = mir.norm(tests[0].callee).split("::")[-2:]
+            got = {u: run_mir(k, {}, lambda po: False, 0, "::".join(pat), u) for u in (0, 1)}
+            rep.ob("R17.3", "ensure_all_used: a used entry is accepted (loop continues)", got == {0: 1, 1: 0},
+                   f"used -> kept: {got}", k.loc())
+    for x in [x for x in chain if mir.norm(x.callee).endswith("::map")]:
+        k, rv = closure_of(c, f, x.args[1])
+        srcs = ret_sources(k) if k is not None else []
+        rep.ob("R17.3", "ensure_all_used: the entry examined is the one whose index was tested",
+               bool(srcs) and all(o_.get("kind") == "arg" and o_.get("n") == 2 and
+                                  [p for p in o_.get("proj", []) if p.startswith(".")] == [".1"] for _, o_ in srcs),
+               "map() does not project the enumerated pair to its entry", k.loc() if k is not None else f.loc(x.bb))
+    k, rv = closure_of(c, f, X.args[1])
+    if k is None:
+        raise AnchorMissing("ensure_all_used: find closure")
+    rep.saw(k)
+    sw = [(b, m, o_) for b, m, o_ in discr_switches(k, ty_sub="AsyncFilter")
+          if o_["of"].get("kind") == "arg" and o_["of"].get("n") == 2 and ".filter" in o_["of"].get("proj", [])]
+    if len(sw) != 1:
+        raise AnchorMissing("ensure_all_used: the find closure's test of the entry's filter")
+    res = [(b, m, o_) for b, m, o_ in discr_switches(f) if o_["of"].get("kind") == "call" and o_["of"]["call"].bb == X.bb
+           and not o_["of"].get("proj")]
+    if len(res) != 1:
+        raise AnchorMissing("ensure_all_used: switch on the result of find()")
+    rb, rm, _ = res[0]
+    some_t, none_t = variant_target(rm, "Some"), variant_target(rm, "None")
+    rets = f.returns()
+    some_err = some_t is not None and f.all_paths_pass(some_t, rets, errs) and not (f.reachable(some_t) & set(oks))
+    for dv, v in sorted(sw[0][2]["vars"].items(), key=lambda kv: kv[1]):
+        if v == "All":
+            continue
+        got = run_mir(k, {}, lambda po: po.get("kind") == "arg" and po.get("n") == 2 and ".filter" in po.get("proj", []),
+                      dv, CMP, 0)
+        rep.ob("R17.3", f"ensure_all_used: an unused {v} directive is an error", got == 1 and some_err,
+               f"find() selects {v}: {got}; a found entry always yields Err: {some_err}", k.loc())
+    rep.ob("R17.3", "ensure_all_used: Ok(()) only after the whole list was walked",
+           none_t is not None and bool(oks) and all(f.dominates(none_t, b) for b in oks),
+           "Ok is returned although find() produced an unused directive", f.loc(oks[0]) if oks else f.loc())
+
+
 def r3_ensure(rep):
     c = ws("wit_bindgen_core")
     f = c.method("AsyncFilterSet", "ensure_all_used")
     rep.saw(f)
     a_self = 1
-    L = Loop(f, "ensure_all_used")
+    try:
+        L = Loop(f, "ensure_all_used")
+    except AnchorMissing:
+        return r3_adapter(rep, c, f)
     N = L.head
     names, root = L.chain()
     rep.ob("R17.3", "ensure_all_used: walks self.async_ enumerated (indices agree with is_async)",
            is_arg_field(root, a_self, "async_") and "enumerate" in [n.split("::")[-1] for n in names]
            and not [n for n in names if n.split("::")[-1] in ("rev", "skip", "take", "filter", "step_by")],
            f"iterator chain {[n.split('::')[-1] for n in names]}", f.loc(N))
-    cont = [x for x in f.calls("HashSet::contains")]
-    rep.floor("R17.3", "used_options.contains sites", len(cont), 1)
-    if len(cont) != 1:
-        raise AnchorMissing("ensure_all_used: used_options.contains(&i)")
-    C = cont[0]
+    def is_used_test(o_):
+        return used_test(f, o_, lambda r: is_arg_field(r, a_self, "used_options"), lambda i: L.elem(i, ".0")) is not None
+    csw = bool_switches_on(f, is_used_test)
+    rep.floor("R17.3", "used_options.contains sites", len(csw), 1)
+    touching = [x for x in f.calls() if any(is_arg_field(f.origin(a), a_self, "used_options") for a in x.args)
+                and not mir.norm(x.callee).endswith(("Deref>::deref",))]
     rep.ob("R17.3", "ensure_all_used: asks used_options about the index of the current entry",
-           is_arg_field(f.origin(C.args[0]), a_self, "used_options") and L.elem(f.origin(C.args[1]), ".0"),
-           "contains() is asked about another set or index", f.loc(C.bb))
-    csw = [s for s in bool_switches_on_call(f, "HashSet::contains")]
+           len(csw) == 1 and len(touching) <= 1,
+           f"{len(csw)} test(s) of the current index among {len(touching)} use(s) of used_options", f.loc(touching[0].bb) if touching else f.loc())
     if len(csw) != 1:
-        raise AnchorMissing("ensure_all_used: switch on contains()")
+        raise AnchorMissing("ensure_all_used: switch on `entry i is used`")
     cb, cft, ctt = csw[0]
     errs = [b for b, s in ret_writes(f) if f.stores_variant(s, "Err")]
     oks = [b for b, s in ret_writes(f) if f.stores_variant(s, "Ok")]
@@ -667,8 +1093,8 @@ def r3_finish(rep):
     sw = [(b, m, o_) for b, m, o_ in discr_switches(f, ty_sub="ControlFlow")
           if br and o_["of"].get("kind") == "call" and o_["of"]["call"].bb == br[0].bb]
     oks = [b for b, s in ret_writes(f) if f.stores_variant(s, "Ok")]
-    rep.floor("R17.3", "Ok(()) returns in RustWasm::finish", len(oks), 1)
     if len(br) == 1 and len(sw) == 1:
+        rep.floor("R17.3", "Ok(()) returns in RustWasm::finish", len(oks), 1)
         b, m, _ = sw[0]
         cont = variant_target(m, "Continue")
         brk = variant_target(m, "Break")
@@ -682,7 +1108,9 @@ def r3_finish(rep):
                "the Break edge does not return the residual", f.loc(b))
     else:
         # no `?`: accept a direct return of the call's result only
-        direct = [b for b, s in ret_writes(f)] == [] and E.dest["l"] == 0
+        after = f.reachable(E.bb) - {E.bb}
+        direct = E.dest["l"] == 0 and not E.dest.get("p") and not [b for b, s in ret_writes(f) if b in after] and \
+            not [x for x in f.calls() if x.bb in after and x.dest["l"] == 0]
         rep.ob("R17.3", "RustWasm::finish: Ok is returned only when ensure_all_used succeeded",
                direct and not oks, "the result of ensure_all_used is neither `?`-propagated nor returned", f.loc(E.bb))
     # the same set is the one is_async marks: the forwarder uses self.opts.async_ in place (no clone)
@@ -736,6 +1164,27 @@ def r4_sites(rep):
                            o.get("kind") == "arg" and not o.get("proj") and bools == [o.get("n")],
                            f"passes {o.get('kind')} {o.get('place', o.get('v', ''))}", f.loc(x.bb))
                     continue
+                if me is None and o.get("kind") == "const" and f.npath in answer_helpers(crate):
+                    # a private helper that fixes the direction: judged at each of its callers
+                    callers = [(h, y) for h in c.fns.values() for y in h.calls() if mir.norm(y.callee) == f.npath]
+                    hkeys = [_suffix(h.npath, keys) for h, _ in callers]
+                    if callers and all(hk is not None for hk in hkeys):
+                        ki = [i for i, t in enumerate(x.arg_types) if "WorldKey" in t]
+                        oi = f.origin(x.args[ki[0]]) if len(ki) == 1 else {}
+                        if oi.get("kind") == "call" and mir.norm(oi["call"].callee).endswith("Option::map") and oi["call"].args:
+                            oi = f.origin(oi["call"].args[0])
+                        for (h, y), hk in zip(callers, hkeys):
+                            want = SITE_DIRECTION[(crate, hk)]
+                            nconst += 1
+                            rep.saw(h)
+                            pi = [h.origin(a) for a, t in zip(y.args, y.arg_types) if "WorldKey" in t]
+                            rep.ob("R17.4", f"{short}::{hk}: asks about the interface it was given (a parameter, not a constant)",
+                                   oi.get("kind") == "arg" and bool(pi) and all(q.get("kind") == "arg" for q in pi),
+                                   f"interface argument comes from {oi.get('kind')} / {[q.get('kind') for q in pi]}", h.loc(y.bb))
+                            rep.ob("R17.4", f"{short}::{hk}: is_import is the constant {'true' if want else 'false'}",
+                                   o.get("v") == int(want),
+                                   f"asks through {f.npath.split('::')[-1]}, which passes const {o.get('v')}", h.loc(y.bb))
+                        continue
                 if me is None:
                     rep.ob("R17.4", f"{inst}: call site of is_async in a function of known direction", False,
                            "unclassified call site: add it to SITE_DIRECTION after reading which direction it serves",
@@ -817,9 +1266,38 @@ def answer_switches(f, pred):
     return sw
 
 
+_HELPERS = {}
+
+
+def answer_helpers(crate):
+    """same-crate bool functions every return value of which is the answer of is_async (forwarders such as
+    RustWasm::is_async or a private `is_export_async`): {npath: function}."""
+    if crate not in _HELPERS:
+        c = ws(crate)
+        out = {}
+        changed = True
+        while changed:
+            changed = False
+            for g in c.fns.values():
+                if g.npath in out or g.locals[0] != "bool":
+                    continue
+                srcs = ret_sources(g)
+                if srcs and all(o.get("kind") == "call" and not o.get("proj") and
+                                (o["call"].matches(IS_ASYNC) or mir.norm(o["call"].callee) in out) for _, o in srcs):
+                    out[g.npath] = g
+                    changed = True
+        _HELPERS[crate] = out
+    return _HELPERS[crate]
+
+
 def is_answer_call(o):
-    return o.get("kind") == "call" and not o.get("proj") and \
-        (o["call"].matches(IS_ASYNC) or o["call"].matches("RustWasm::is_async"))
+    if o.get("kind") != "call" or o.get("proj"):
+        return False
+    if o["call"].matches(IS_ASYNC):
+        return True
+    n = mir.norm(o["call"].callee)
+    return any(n in answer_helpers(cr) for cr in BACKENDS if cr in _HELPERS) or \
+        any(n in answer_helpers(cr) for cr in BACKENDS)
 
 
 def region_check(rep, f, inst, sws, want_true, want_false, what):
@@ -1009,6 +1487,7 @@ def ifs_selecting(fn, pred):
 def r5_rust(rep):
     c = ws("wit_bindgen_rust")
     rep.saw(file=RUST_IF)
+    ANS = sorted({"is_async"} | {n.split("::")[-1] for n in answer_helpers("wit_bindgen_rust")})
     # --- imports: generate_guest_import dispatches on the answer
     fn = synq.find_fn(RUST_IF, "generate_guest_import", self_ty="InterfaceGenerator")
     A, S = "generate_guest_import_body_async", "generate_guest_import_body_sync"
@@ -1019,7 +1498,7 @@ def r5_rust(rep):
         cn, neg = cond_name(n["cond"])
         t, e = (n["else"], n["then"]) if neg else (n["then"], n["else"])
         rep.ob("R17.5", "rust::generate_guest_import: async answer => body_async, sync answer => body_sync",
-               cn is not None and bound_from_call(fn, cn, "is_async") and
+               cn is not None and bound_from_call(fn, cn, ANS) and
                [m["method"] for m in synq.method_calls(t, [A, S])] == [A] and
                [m["method"] for m in synq.method_calls(e, [A, S])] == [S],
                f"if {render(n['cond'])}: then calls {[m['method'] for m in synq.method_calls(n['then'], [A, S])]}, else "
@@ -1116,9 +1595,21 @@ def r5_rust(rep):
         lets = [nm_ for nm_, init, st in synq.bindings(g.body) if init is n]
         heads = [x for x in synq.fmts(g.body) if x.template and "export_name = " in x.template]
         ok = len(lets) == 1 and bool(heads)
+        def hole_names(x, depth=4):
+            out = set()
+            for kind, key, ex, off in x.hole_exprs():
+                nm_ = key if (kind == "name" and ex is None) else (ex["path"] if ex is not None and ex.get("k") == "path" else None)
+                if nm_ is None:
+                    continue
+                out.add(nm_)
+                inits = [i for n_, i, st in synq.bindings(g.body) if n_ == nm_ and i is not None]
+                if depth > 0 and len(inits) == 1:       # a local built with format!: look through it
+                    for y in synq.fmts(inits[0]):
+                        if y.node is inits[0] or (inits[0].get("k") == "ref" and y.node is inits[0].get("e")):
+                            out |= hole_names(y, depth - 1)
+            return out
         for x in heads:
-            names = [key for kind, key, ex, off in x.hole_exprs() if kind == "name"]
-            ok = ok and lets[0] in names
+            ok = ok and lets[0] in hole_names(x)
         rep.ob("R17.5", "rust::generate_raw_cabi_export: every #[export_name] attribute prints the selected name", ok,
                f"{[x.template.strip()[:60] for x in heads]}", g.loc())
     # --- the answer reaches those parameters (generate_exports)
@@ -1164,7 +1655,7 @@ def r5_rust(rep):
         ok = bool(sigs)
         for s_ in sigs:
             fl = [x for x in s_["fields"] if x["name"] == "async_"]
-            ok = ok and len(fl) == 1 and fl[0]["e"].get("k") == "path" and bound_from_call(g, fl[0]["e"]["path"], "is_async")
+            ok = ok and len(fl) == 1 and fl[0]["e"].get("k") == "path" and bound_from_call(g, fl[0]["e"]["path"], ANS)
         rep.ob("R17.5", f"rust::{nm}: the Rust signature (FnSig.async_) is the answer of is_async", ok,
                f"{len(sigs)} FnSig literal(s)", g.loc())
 
